@@ -19,7 +19,6 @@ Qed.
 
 Section Once.
 Variable p : program.
-Hypothesis Hng : forall n e, alookup p n = Some e -> no_group e = true.
 Variables fuel pfuel : nat.
 
 Lemma mstep_query_mono : forall s n s' x,
@@ -29,7 +28,7 @@ Lemma mstep_query_mono : forall s n s' x,
 Proof.
   intros s n s' x H. unfold step_f in H.
   destruct (query_for p None fuel [] CUser None n (set_log s [])) as [[[[o fr] ms] s1]| | |] eqn:Eq.
-  - right. apply (proj1 (mmono_all p Hng fuel)) in Eq. destruct o as [[z|]|]; inversion H; subst; auto.
+  - right. apply (proj1 (mmono_all p fuel)) in Eq. destruct o as [[z|]|]; inversion H; subst; auto.
   - left. inversion H. auto.
   - left. inversion H. auto.
   - left. inversion H. auto.
@@ -115,7 +114,17 @@ Proof.
 Qed.
 End Once.
 
-(** C03 "at most once" on the full model *)
+(** C03 "at most once" on the full model (unordered groups included) *)
+Definition model_once_g_statement_f : Prop :=
+  forall fuel pfuel p ops i j m r, wf_model_g p -> Forall op_in_scope ops ->
+    let rs := run_history_f fuel pfuel p init_state ops in
+    (nth_error rs i = Some r -> NoDup (r_execs r)) /\
+    ((j < i)%nat -> executed_at rs i m -> executed_at rs j m -> ~ no_session_between ops j i).
+Definition model_once_g_statement : Prop :=
+  forall p ops i j m r, wf_model_g p -> Forall op_in_scope ops ->
+    let rs := run_history p init_state ops in
+    (nth_error rs i = Some r -> NoDup (r_execs r)) /\
+    ((j < i)%nat -> executed_at rs i m -> executed_at rs j m -> ~ no_session_between ops j i).
 Definition model_once_statement_f : Prop :=
   forall fuel pfuel p ops i j m r, wf_model p -> Forall op_in_scope ops ->
     let rs := run_history_f fuel pfuel p init_state ops in
@@ -127,18 +136,22 @@ Definition model_once_statement : Prop :=
     (nth_error rs i = Some r -> NoDup (r_execs r)) /\
     ((j < i)%nat -> executed_at rs i m -> executed_at rs j m -> ~ no_session_between ops j i).
 
-Theorem model_once_f : model_once_statement_f.
+Theorem model_once_g_f : model_once_g_statement_f.
 Proof.
-  intros fuel pfuel p ops i j m r Hwf Hsc. cbv zeta.
-  destruct (wf_model_facts p Hwf) as (rk & _ & _ & Hng & _).
-  split.
+  intros fuel pfuel p ops i j m r _ Hsc. cbv zeta. split.
   - eapply mrun_nodup; eauto.
   - intros Hji Hi Hj. eapply mrun_once; eauto.
 Qed.
-Theorem model_once : model_once_statement.
+Theorem model_once_g : model_once_g_statement.
 Proof.
-  intros p ops i j m r Hwf Hsc. cbv zeta. rewrite run_history_is_f. apply (model_once_f fuel0 4000%nat); assumption.
+  intros p ops i j m r Hwf Hsc. cbv zeta. rewrite run_history_is_f. apply (model_once_g_f fuel0 4000%nat); assumption.
 Qed.
+Theorem model_once_f : model_once_statement_f.
+Proof. intros fuel pfuel p ops i j m r Hwf. apply model_once_g_f. apply wf_model_g_of. exact Hwf. Qed.
+Theorem model_once : model_once_statement.
+Proof. intros p ops i j m r Hwf. apply model_once_g. apply wf_model_g_of. exact Hwf. Qed.
 
+Print Assumptions model_once_g_f.
+Print Assumptions model_once_g.
 Print Assumptions model_once_f.
 Print Assumptions model_once.
